@@ -432,4 +432,124 @@ def runT (v : Variant) : TState → List TOp → TState × List Out
     let rs := runT v r.1 ops
     (rs.1, r.2 :: rs.2)
 
+/-! ## Part 4: the same handlers with the choice of tree as a parameter
+
+`stepOf` / `tstepOf` are `step` / `tstep` with `_calc_spanning_tree()` replaced by `choose : adjacency ↦ its result`
+(`step_isOf` / `tstep_isOf`: the modelled code is the instance `choose = calcTreeL · order`).  The correspondence run instantiates
+`choose` with the tree the implementation's flood bits amount to after the op (`Spec.floodTree`, accepted by `Spec.validForest`). -/
+
+abbrev Choose := List Link → Except String (List TEdge)
+
+def handleLinkEventOf (v : Variant) (adjNow : List Link) (choose : Choose) (conns : Conns) (link : Link)
+    (acc : Prev × List PortMod × Nat) : Prev × List PortMod × Nat :=
+  if v.skip ∧ acc.1.get (link.dpid1, link.port1) = some false ∧ acc.1.get (link.dpid2, link.port2) = some false then acc
+  else match updateTreeOf v.visitAll adjNow (choose adjNow) conns acc.1 with
+    | .error _ => (acc.1, acc.2.1, acc.2.2 + 1)
+    | .ok r => (r.1, acc.2.1 ++ r.2, acc.2.2)
+
+def handleAllOf (v : Variant) (adjNow : List Link) (choose : Choose) (conns : Conns) :
+    List Link → Prev × List PortMod × Nat → Prev × List PortMod × Nat
+  | [], acc => acc
+  | l :: ls, acc => handleAllOf v adjNow choose conns ls (handleLinkEventOf v adjNow choose conns l acc)
+
+def deleteLinksOf (v : Variant) (s : DState) (links : List Link) (choose : Choose) : DState × Out :=
+  let adj' := without s.adj links
+  let r := handleAllOf v (if v.popFirst then keys adj' else keys s.adj) choose s.conns links (s.prev, [], 0)
+  ({ s with adj := adj', prev := r.1 }, { events := links.map fun l => (false, l), mods := r.2.1, errs := r.2.2 })
+
+def stepOf (v : Variant) (s : DState) (choose : Choose) : Op → DState × Out
+  | .tick dt => ({ s with now := s.now + dt }, {})
+  | .up d ps => ({ s with conns := Conns.erase s.conns d ++ [(d, ps)], prev := s.prev.clear d }, {})
+  | .down d _ =>
+    let s1 := { s with conns := Conns.erase s.conns d }
+    let links := (keys s.adj).filter fun l => l.dpid1 = d || l.dpid2 = d
+    deleteLinksOf v s1 links choose
+  | .probe l _ =>
+    if (s.conns.get l.dpid1).isNone then (s, {})
+    else if l.dpid2 = l.dpid1 ∧ l.port2 = l.port1 then (s, {})
+    else if l ∈ keys s.adj then ({ s with adj := touch s.adj l s.now }, {})
+    else
+      let adj' := s.adj ++ [(l, s.now)]
+      let r := handleLinkEventOf v (keys adj') choose s.conns l (s.prev, [], 0)
+      ({ s with adj := adj', prev := r.1 }, { events := [(true, l)], mods := r.2.1, errs := r.2.2 })
+  | .sweep _ =>
+    let expired := keys (s.adj.filter fun e => e.2 + LINK_TIMEOUT < s.now)
+    if expired.isEmpty then (s, {}) else deleteLinksOf v s expired choose
+
+/-- the iteration order of the `switches` set an op carries (an oracle argument of the modelled `_calc_spanning_tree`) -/
+def Op.order : Op → List Nat
+  | .tick _ => []
+  | .up _ _ => []
+  | .down _ o => o
+  | .probe _ o => o
+  | .sweep o => o
+
+theorem handleLinkEvent_isOf (v : Variant) (adjNow : List Link) (order : List Nat) (conns : Conns) (link : Link)
+    (acc : Prev × List PortMod × Nat) :
+    handleLinkEvent v adjNow order conns link acc = handleLinkEventOf v adjNow (fun a => calcTreeL a order) conns link acc := rfl
+
+theorem handleAll_isOf (v : Variant) (adjNow : List Link) (order : List Nat) (conns : Conns) :
+    ∀ (ls : List Link) (acc : Prev × List PortMod × Nat),
+      handleAll v adjNow order conns ls acc = handleAllOf v adjNow (fun a => calcTreeL a order) conns ls acc
+  | [], _ => rfl
+  | l :: ls, acc => by
+    simp only [handleAll, handleAllOf]
+    rw [handleLinkEvent_isOf]
+    exact handleAll_isOf v adjNow order conns ls _
+
+theorem deleteLinks_isOf (v : Variant) (s : DState) (links : List Link) (order : List Nat) :
+    deleteLinks v s links order = deleteLinksOf v s links (fun a => calcTreeL a order) := by
+  simp only [deleteLinks, deleteLinksOf, handleAll_isOf]
+
+/-- THE MODELLED CODE IS ONE INSTANCE: `step` is `stepOf` with the tree `_calc_spanning_tree` as written chooses. -/
+theorem step_isOf (v : Variant) (s : DState) (op : Op) : step v s op = stepOf v s (fun a => calcTreeL a op.order) op := by
+  cases op <;> simp only [step, stepOf, Op.order, deleteLinks_isOf, handleLinkEvent_isOf]
+
+def fireDueOf (v : Variant) (choose : Choose) (target : Nat) : Nat → TState → Out → TState × Out
+  | 0, ts, out => (ts, out)
+  | k+1, ts, out =>
+    match ts.next with
+    | none => (ts, out)
+    | some n =>
+      if n ≤ target then
+        let r := stepOf v { ts.d with now := n } choose (.sweep [])
+        fireDueOf v choose target k
+          ⟨r.1, if timerGoesOn true expireReturns then some (n + CHECK_PERIOD) else none⟩ (out.append r.2)
+      else (ts, out)
+
+def tstepOf (v : Variant) (ts : TState) (choose : Choose) : TOp → TState × Out
+  | .up d ps => let r := stepOf v ts.d choose (.up d ps); (⟨r.1, ts.next⟩, r.2)
+  | .down d o => let r := stepOf v ts.d choose (.down d o); (⟨r.1, ts.next⟩, r.2)
+  | .probe l o => let r := stepOf v ts.d choose (.probe l o); (⟨r.1, ts.next⟩, r.2)
+  | .wait dt _ =>
+    let target := ts.d.now + dt
+    let r := fireDueOf v choose target (dt / CHECK_PERIOD + 1) ts {}
+    (⟨{ r.1.d with now := target }, r.1.next⟩, r.2)
+
+def TOp.order : TOp → List Nat
+  | .up _ _ => []
+  | .down _ o => o
+  | .probe _ o => o
+  | .wait _ o => o
+
+theorem fireDue_isOf (v : Variant) (order : List Nat) (target : Nat) : ∀ (k : Nat) (ts : TState) (out : Out),
+    fireDue v order target k ts out = fireDueOf v (fun a => calcTreeL a order) target k ts out
+  | 0, _, _ => rfl
+  | k+1, ts, out => by
+    unfold fireDue fireDueOf
+    cases ts.next with
+    | none => rfl
+    | some n =>
+      simp only
+      split
+      · rw [step_isOf]; simp only [Op.order]
+        have h : stepOf v { ts.d with now := n } (fun a => calcTreeL a order) (.sweep order) =
+            stepOf v { ts.d with now := n } (fun a => calcTreeL a order) (.sweep []) := rfl
+        rw [h]
+        exact fireDue_isOf v order target k _ _
+      · rfl
+
+theorem tstep_isOf (v : Variant) (ts : TState) (op : TOp) : tstep v ts op = tstepOf v ts (fun a => calcTreeL a op.order) op := by
+  cases op <;> simp only [tstep, tstepOf, TOp.order, step_isOf, Op.order, fireDue_isOf]
+
 end Pox.Discovery
